@@ -321,6 +321,13 @@ func replayOnce(c *Ctx, rf *ReplayFile) (bool, string, error) {
 			}
 		}
 		return false, "20 free-running repetitions all returned the library result", nil
+	case "host-c16-preempt":
+		class, _ := rf.Expect["class"].(string)
+		k, v, _ := preemptFails(c, rf.Host, rf.Sched, class)
+		if k >= 0 {
+			return true, fmt.Sprintf("call %d: %s", k+1, v.msg), nil
+		}
+		return false, "every call of the preemptive host world returned the library result", nil
 	case "host-c16", "so-c16":
 		res, err := runHost(c, rf.Host, rf.Kind == "so-c16")
 		if err != nil {
@@ -338,6 +345,9 @@ func replayOnce(c *Ctx, rf *ReplayFile) (bool, string, error) {
 			return false, "the reference formatter panics on this input", nil
 		}
 		if v := checkHostCall(ref, &res[len(res)-1]); v != nil {
+			return true, v.msg, nil
+		}
+		if v := c.checkErrorTextCold(ref, last, &res[len(res)-1], rf.Kind == "so-c16"); v != nil {
 			return true, v.msg, nil
 		}
 		return false, "returned string equals the library result", nil
